@@ -357,7 +357,23 @@ def _returned_arcs(ctx, mdl):
                         continue
                     f_ = res.attrs
                     fresh = it.construct('path.Arc', f_['start'], f_['radius'], f_['rotation'], f_['large_arc'], f_['sweep'], f_['end'])
-                    out.append([(k_, f_.get(k_), fresh.attrs.get(k_)) for k_ in ('center', 'theta', 'delta', 'radius')])
+                    row = [(k_, f_.get(k_), fresh.attrs.get(k_)) for k_ in ('center', 'theta', 'delta', 'radius', 'phi', 'rot_matrix')
+                           if k_ in fresh.attrs]
+                    # ... and answers like it: whatever else the object remembers (cached trigonometry, a copied frame) is judged by
+                    # what its methods return at the two ends
+                    for nm_, call_ in (('point(0)', lambda o: it.call_method(o, 'point', Rat.const(0))), ('point(1)', lambda o: it.call_method(o, 'point', Rat.const(1))),
+                                       ('derivative(0)', lambda o: it.call_method(o, 'derivative', Rat.const(0))),
+                                       ('derivative(1)', lambda o: it.call_method(o, 'derivative', Rat.const(1))),
+                                       ('bbox()', lambda o: it.call_method(o, 'bbox'))):
+                        try:
+                            g_, w_ = call_(res), call_(fresh)
+                        except Undecidable:
+                            continue
+                        if isinstance(g_, tuple) and isinstance(w_, tuple) and len(g_) == len(w_):
+                            row += [('%s[%d]' % (nm_, i_), a_, b_) for i_, (a_, b_) in enumerate(zip(g_, w_))]
+                        else:
+                            row.append((nm_, g_, w_))
+                    out.append(row)
                 return out
             try:
                 paths = explore(mdl, th, {'time_limit': 20})
